@@ -93,7 +93,8 @@ META = {
                    'seeded/revert-F-C15a, revert-F-C15b are the regression seeds.'),
     'rule': ('random namespaces: 1-5 static tasks (deps, up-to-date, failing), 1-3 create_after creators (executed '
              'static or another creator\'s task | none; creates=[1-3 names] | none; target_regex | none; 0-3 yields as '
-             'sub-tasks or explicit basenames with deps/targets/up-to-date/failing), late static tasks depending on '
+             'sub-tasks or explicit basenames with deps/targets/up-to-date/failing, file_dep on a target of the same creator / of a '
+             'static task / of an earlier creator), late static tasks depending on '
              'several placeholders, selection none | tasks | sub-tasks | targets | unknown words (+ '
              '--auto-delayed-regex), --continue, runner serial | thread k=1..3 x policy | process k=2; 22% of the serial/thread '
              'cases run the SAME namespace object 2-3 times in one process (same / other selection), monitors and '
@@ -543,6 +544,8 @@ def gen_sel(rng, static, creators, k):
                 sel.append(rng.choice(subs))
             elif r < 0.94 and targets:
                 sel.append(rng.choice(targets))
+            elif r < 0.97 and any(s_['targets'] for s_ in static):
+                sel.append(rng.choice([t for s_ in static for t in s_['targets']]))
             else:
                 sel.append(rng.choice(['o0_zz', 'o1_zz', 'nobody', 'o0_a']))
         auto = rng.random() < 0.15
@@ -555,7 +558,12 @@ def gen_case(rng, runner=None, knobs=None):
     static = []
     for i in range(n_static):
         deps = [s['name'] for s in static if rng.random() < 0.3]
-        static.append({'name': 's%d' % i, 'task_dep': deps, 'targets': [], 'utd': rng.random() < 0.3,
+        # some static tasks build a file (`t_<name>`): a created task may consume it (implicit task_dep through the
+        # GLOBAL target map); the reverse -- a static task consuming a created task's target -- is documented as not
+        # supported and is not generated
+        static.append({'name': 's%d' % i, 'task_dep': deps,
+                       'targets': ['t_s%d' % i] if rng.random() < k.get('p_static_target', 0.4) else [],
+                       'utd': rng.random() < 0.3,
                        'fails': rng.random() < k.get('p_fail', 0.08), 'late': False})
     n_cre = rng.choice([1, 1, 2, 2, 3])
     creators = []
@@ -604,10 +612,20 @@ def gen_case(rng, runner=None, knobs=None):
             y['file_dep'] = []
             y['utd'] = rng.random() < 0.2
             prev_t = [t for p in yields[:j] for t in p.get('targets', [])]
-            if prev_t and rng.random() < 0.15:
-                # a created task consuming another created task's target: implicit task_dep (set_implicit_deps)
-                y['file_dep'] = [rng.choice(prev_t)]
-                y['utd'] = False
+            static_t = [t for st_ in static for t in st_['targets']]
+            other_t = [t for ocr in creators for p in ocr['yields'] for t in p.get('targets', [])]
+            if rng.random() < k.get('p_file_dep', 0.3):
+                # a created task consuming a file built by a task of the same batch / by a static task / by a task of a
+                # creator defined earlier: implicit task_dep (set_implicit_deps looks the file up in the global map)
+                pools = [p for p in (prev_t, static_t, static_t, other_t) if p]
+                if pools:
+                    fd = [rng.choice(rng.choice(pools))]
+                    if rng.random() < 0.25:
+                        extra = rng.choice(rng.choice(pools))
+                        if extra not in fd:
+                            fd.append(extra)
+                    y['file_dep'] = fd
+                    y['utd'] = False
             y['fails'] = rng.random() < k.get('p_fail', 0.08)
         cr = {'fname': fname, 'executed': executed, 'creates': creates, 'regex': regex, 'yields': yields}
         creators.append(cr)
@@ -660,8 +678,10 @@ def render(case):
         if item in ('@static', '@late'):
             for t in case['static']:
                 if bool(t.get('late')) == (item == '@late'):
-                    lines.append('task %s: task_dep=%s%s%s' % (t['name'], t['task_dep'], ' utd' if t['utd'] else '',
-                                                                ' FAILS' if t['fails'] else ''))
+                    lines.append('task %s: task_dep=%s%s%s%s' % (t['name'], t['task_dep'],
+                                                                  ' targets=%s' % t['targets'] if t['targets'] else '',
+                                                                  ' utd' if t['utd'] else '',
+                                                                  ' FAILS' if t['fails'] else ''))
         else:
             cr = [c for c in case['creators'] if c['fname'] == item][0]
             lines.append('@create_after(executed=%r, creates=%r, target_regex=%r) def task_%s: yields %s' % (
@@ -876,8 +896,8 @@ def _variants(case):
             y = c['creators'][i]['yields'].pop(j)
             yield c
         for j, y in enumerate(case['creators'][i]['yields']):
-            for key in ('task_dep', 'targets'):
-                if y[key]:
+            for key in ('task_dep', 'targets', 'file_dep'):
+                if y.get(key):
                     c = copy.deepcopy(case)
                     c['creators'][i]['yields'][j][key] = []
                     yield c
@@ -900,6 +920,11 @@ def _variants(case):
                 c = copy.deepcopy(case)
                 c['static'][i][key] = False
                 yield c
+        if t['targets'] and not any(f in t['targets'] for cr in case['creators'] for y in cr['yields']
+                                    for f in (y.get('file_dep') or [])):
+            c = copy.deepcopy(case)
+            c['static'][i]['targets'] = []
+            yield c
     if case['sel'] is not None and len(case['sel']) > 1:
         for i in range(len(case['sel'])):
             c = copy.deepcopy(case)
@@ -935,6 +960,17 @@ def _variants(case):
         yield c
 
 
+def _sanitize(case):
+    """after a shrinking edit: a file_dep must still be the target of some task (the harness only creates target files)"""
+    built = set(t for s_ in case['static'] for t in s_['targets'])
+    built.update(t for cr in case['creators'] for y in cr['yields'] for t in y['targets'])
+    for cr in case['creators']:
+        for y in cr['yields']:
+            if y.get('file_dep'):
+                y['file_dep'] = [f for f in y['file_dep'] if f in built]
+    return case
+
+
 def shrink(case, want, max_tests=120, max_seconds=15.0):
     t0 = time.time()
     tests = 0
@@ -947,6 +983,7 @@ def shrink(case, want, max_tests=120, max_seconds=15.0):
                 break
             tests += 1
             v.pop('schedule', None)
+            _sanitize(v)
             if still_fails(v, want):
                 cur = v
                 progress = True
@@ -981,6 +1018,13 @@ def count_case(st, case, obs, ans):
                 st.count('sel:regex-target')
             else:
                 st.count('sel:unknown-word')
+    st_t = set(t for s_ in case['static'] for t in s_['targets'])
+    for ci, cr in enumerate(case['creators']):
+        own = set(t for y in cr['yields'] for t in y['targets'])
+        for y in cr['yields']:
+            for f in y.get('file_dep') or []:
+                st.count('created-file_dep:%s' % ('static-target' if f in st_t else 'same-creator' if f in own
+                                                 else 'other-creator'))
     st.count('runs-in-one-process:%d' % len(runs_of(case)))
     if case.get('runs'):
         for r in case['runs']:
@@ -1067,20 +1111,25 @@ def exhaustive_cases():
         for trig in ('run', 'utd', 'fails', None):
             for selkind in ('all', 'placeholder', 'created', 'target', 'two-targets', 'late'):
                 for runner in ('serial', 'thread'):
+                    # `lib` builds a file the second created task consumes (implicit task_dep through the global
+                    # target map); nothing selects `lib` by name
                     static = [{'name': 's0', 'task_dep': [], 'targets': [], 'utd': trig == 'utd',
-                               'fails': trig == 'fails', 'late': False}]
+                               'fails': trig == 'fails', 'late': False},
+                              {'name': 'lib', 'task_dep': [], 'targets': ['t_lib'], 'utd': False, 'fails': False,
+                               'late': False}]
                     mk = lambda **kw: dict({'task_dep': [], 'targets': [], 'file_dep': [], 'utd': False, 'fails': False}, **kw)
                     if style == 'subs':
                         cr = {'fname': 'g', 'creates': None, 'yields': [mk(kind='sub', sub='x', targets=['o_x']),
-                                                                         mk(kind='sub', sub='y', targets=['o_y'])]}
-                        ph, created = ['g'], 'g:x'
+                                                                         mk(kind='sub', sub='y', targets=['o_y'], file_dep=['t_lib'])]}
+                        ph, created = ['g'], 'g:y'
                     elif style == 'creates2':
                         cr = {'fname': 'g', 'creates': ['ca', 'cb'],
                               'yields': [mk(kind='base', basename='ca', targets=['o_x']),
-                                         mk(kind='base', basename='cb', targets=['o_y'], task_dep=['ca'])]}
+                                         mk(kind='base', basename='cb', targets=['o_y'], task_dep=['ca'], file_dep=['t_lib'])]}
                         ph, created = ['ca', 'cb'], 'cb'
                     else:
-                        cr = {'fname': 'g', 'creates': None, 'yields': [mk(kind='base', basename='g', targets=['o_x', 'o_y'])]}
+                        cr = {'fname': 'g', 'creates': None, 'yields': [mk(kind='base', basename='g', targets=['o_x', 'o_y'],
+                                                                         file_dep=['t_lib'])]}
                         ph, created = ['g'], 'g'
                     cr['executed'] = 's0' if trig else None
                     cr['regex'] = 'o_.*'
